@@ -38,6 +38,9 @@ def gen_plan(run_seed, fault_mode='none'):
                'disconnect': wl.choice([1, 3]), 'disconnect_bogus': wl.choice([0, 1]), 'emit': 3,
                'emit_until': wl.choice([0, 2]), 'copy': wl.choice([0, 1]), 'last_id': wl.choice([0, 1])}
     weights['disconnect_recent'] = wl.choice([0, 2]) if not long_history else 5
+    # listeners that act on their handler while it emits (re-entrant use): disconnect themselves (one-shot
+    # listeners), disconnect another listener, connect a new one
+    weights['actor'] = wl.choice([0, 0, 1, 2]) if not long_history else 0
     if long_history:
         weights['copy'] = 0
         weights['emit'] = 1
@@ -59,6 +62,11 @@ def gen_plan(run_seed, fault_mode='none'):
             n_cb += 1  # the unique extra kwarg makes two connections of the same function distinguishable
             ops.append(['by_name', h, wl.choice(['named_target_a', 'named_target_b']), wl.choice(prios),
                         {'y': n_cb}])
+        elif kind == 'actor':
+            n_cb += 1
+            action = wl.choice([['self'], ['self'], ['id', wl.randrange(0, 8)], ['id', wl.randrange(0, 8)],
+                                ['connect', wl.choice(prios)]])
+            ops.append(['actor', h, n_cb, wl.choice(prios), action])
         elif kind == 'disconnect':
             ops.append(['disconnect', h, wl.randrange(0, 8)])
         elif kind == 'disconnect_recent':
@@ -106,6 +114,36 @@ def execute(plan, scratch_root=None, decisions=None, jitters=None):
         m['listeners'].append([m['counter'], name, prio, dict(extra or {}), ret])
         m['counter'] += 1
 
+    def make_actor(n, action, hidx, own):
+        # a listener that uses the handler it is connected to while that handler emits; what it did is recorded
+        # in the call trace, from which check_emit() updates the model
+        def cb(*args, **kwargs):
+            evh = handlers[hidx]
+            with warnings.catch_warnings():
+                warnings.simplefilter('ignore')
+                if action[0] == 'self':
+                    evh.disconnect(own['id'])
+                    rec = ['disc', hidx, own['id']]
+                elif action[0] == 'id':
+                    evh.disconnect(action[1])
+                    rec = ['disc', hidx, action[1]]
+                else:
+                    own['spawned'] = own.get('spawned', 0) + 1
+                    name = f'cb{n}s{own["spawned"]}'
+                    spawned = make_cb(0, None)
+                    spawned_name = name
+
+                    def spawned_cb(*a, _name=spawned_name, **kw):
+                        TRACE.append([_name, list(a), sorted(kw.items())])
+                        return None
+                    del spawned
+                    evh.connect(spawned_cb, action[1])
+                    rec = ['conn', hidx, name, action[1]]
+            TRACE.append([f'cb{n}', list(args), sorted(kwargs.items()), rec])
+            return None
+        cb.__name__ = f'cb{n}'
+        return cb
+
     try:
         for i, op in enumerate(plan['ops']):
             kind, h = op[0], op[1]
@@ -125,6 +163,11 @@ def execute(plan, scratch_root=None, decisions=None, jitters=None):
                             raise Violation('events.connect_return', f'op {i}: connect() did not return the callback',
                                             facts, i)
                         add(m, f'cb{n}', prio, extra, ret)
+                    elif kind == 'actor':
+                        _, _, n, prio, action = op
+                        own = {'id': m['counter']}
+                        ev.connect(make_actor(n, list(action), h, own), prio)
+                        add(m, f'cb{n}', prio, None, None)
                     elif kind == 'deco':
                         _, _, n, ret = op
                         cb = make_cb(n, ret)
@@ -171,7 +214,7 @@ def execute(plan, scratch_root=None, decisions=None, jitters=None):
                         else:
                             got = ev.emit_until_result(arg, kw=arg + 1)
                         calls = [list(c) for c in TRACE]
-                        check_emit(i, kind, m, arg, got, calls, facts)
+                        check_emit(i, kind, models, h, arg, got, calls, facts)
                         trace.append([i, [c[0] for c in calls]])
                     elif kind == 'copy':
                         cp = ev.copy()
@@ -206,17 +249,20 @@ def execute(plan, scratch_root=None, decisions=None, jitters=None):
     return res
 
 
-def check_emit(i, kind, m, arg, got, calls, facts):
-    listeners = m['listeners']
-    by_name = {}
-    for li in listeners:
-        by_name.setdefault(li[1], []).append(li)
-    # every call must be to a connected listener, with the right arguments
+def check_emit(i, kind, models, h, arg, got, calls, facts):
+    """Live semantics: a listener is called iff it is connected when its turn comes.  Listeners connected at the
+    start of the emit and not disconnected during it must be called, in priority order; a listener must not be
+    called once it is disconnected (also if a listener called earlier in this very emit disconnected it);
+    listeners connected *during* the emit may or may not be called in it (unspecified)."""
+    m = models[h]
+    at_start = list(m['listeners'])
     called = []
-    for name, args, kwargs in calls:
-        key = name if name.startswith('cb') else name
-        cands = by_name.get(key, [])
+    for c in calls:
+        name, args, kwargs = c[0], c[1], c[2]
+        rec = c[3] if len(c) > 3 else None
+        cands = [li for li in m['listeners'] if li[1] == name]  # connected right now, according to the model
         if not cands:
+            facts['reentrant'] = any(len(cc) > 3 for cc in calls)
             raise Violation('events.called_disconnected_listener', f'op {i}: {name} called but not connected', facts, i)
         # several connections of the same named target are distinguished by extra kwargs / order
         match = None
@@ -230,12 +276,21 @@ def check_emit(i, kind, m, arg, got, calls, facts):
         if match is None:
             raise Violation('events.wrong_arguments', f'op {i}: {name} called with {args} {kwargs}', facts, i)
         called.append(match)
-    prios = [li[2] for li in called]
+        if rec is not None:
+            facts['reentrant'] = True
+            mb = models[rec[1]]
+            if rec[0] == 'disc':
+                mb['listeners'] = [li for li in mb['listeners'] if li[0] != rec[2]]
+            else:
+                mb['listeners'].append([mb['counter'], rec[2], rec[3], {}, None])
+                mb['counter'] += 1
+    listeners = [li for li in at_start if li in m['listeners']]  # connected throughout: these are required
+    prios = [li[2] for li in called if li in at_start]
     if prios != sorted(prios, reverse=True):
         raise Violation('events.priority_order', f'op {i}: call order {[(li[1], li[2]) for li in called]}', facts, i)
     if kind == 'emit':
-        if len(called) != len(listeners):
-            missing = [li[1] for li in listeners if li not in called]
+        missing = [li[1] for li in listeners if li not in called]
+        if missing:
             raise Violation('events.listener_not_called', f'op {i}: connected but not called: {missing}', facts, i)
         exp_res = [li[4] for li in called]
         if list(got) != exp_res:
@@ -254,6 +309,8 @@ def check_emit(i, kind, m, arg, got, calls, facts):
             if skipped:
                 raise Violation('events.listener_not_called', f'op {i}: higher priority skipped: {skipped}', facts, i)
         else:
-            if len(called) != len(listeners) or got is not None:
-                raise Violation('events.emit_until_result', f'op {i}: returned {got!r} after {len(called)} calls of '
-                                f'{len(listeners)}', facts, i)
+            missing = [li[1] for li in listeners if li not in called]
+            if missing or got is not None:
+                raise Violation('events.emit_until_result' if not missing else 'events.listener_not_called',
+                                f'op {i}: returned {got!r} after {len(called)} calls; connected but not called: '
+                                f'{missing}', facts, i)
